@@ -14,10 +14,14 @@ from .impl import make, quiet as _quiet, full_snapshot, MODES, time_limit
 import contextlib
 
 
+# generous: the watchdog is there to turn a genuinely non-terminating call into a finding, not to police speed
+WATCHDOG_S = 90.0
+
+
 @contextlib.contextmanager
 def quiet():
     """silence prints and bound the run time of every call into the implementation"""
-    with _quiet(), time_limit(10.0):
+    with _quiet(), time_limit(WATCHDOG_S):
         yield
 
 
@@ -329,6 +333,7 @@ def build(r: random.Random, name: str, n: int, floats: bool = False, mode: Optio
                 "tau": tau, "phi": phi}
         return Topo(spec, mode, eps), Rows(X=specs.elem_data(r, base, n, d, floats=floats))
     if name == "CVIART":
+        n = min(n, 24)      # every candidate evaluates an O(n^2) sklearn index twice
         base = r.choice(["FuzzyART", "HypersphereART", "FuzzyART"])
         spec = {"cls": "CVIART", "base_module": _elem(r, base, max(d, 2)), "validity": r.choice([1, 2, 3])}
         return Cvi(spec, mode, eps), Rows(X=specs.elem_data(r, base, n, max(d, 2)))
